@@ -4,7 +4,7 @@
        then per state:  N <ntrans> trans...  |  C <nbrs> (<tid|-1> trans)...  |  F
      trans := <on hex> <tgt|-1> <fall> <err> <early> <atree>
      atree := E | P <pid> atree | T <tid> atree atree | R (D | O | X | F <n> | Y <n>) | G <q> | B <q>
-   Tasks:  nospin <dfa>   |   bisim <dfa> <dfa>                                                   *)
+   Tasks:  nospin <dfa>   |   wf <dfa>   |   bisim <dfa> <dfa>                                                   *)
 open Machine
 
 let rec nat_of_int i = if i <= 0 then O else S (nat_of_int (i - 1))
@@ -85,6 +85,13 @@ let () =
         else (match spin_witness d with
               | Some (q, s) -> Printf.printf "spin %d %d\n" (int_of_nat q) (int_of_n s)
               | None -> print_endline "spin ? ?")
+    | "wf" ->
+        let d = parse_dfa () in
+        if not (dfa_wf d) then print_endline "nowf"
+        else if no_stuck_ok d then print_endline "ok"
+        else (match stuck_witness d with
+              | Some (q, b) -> Printf.printf "stuck %d %d\n" (int_of_nat q) (int_of_n b)
+              | None -> print_endline "stuck ? ?")
     | "bisim" ->
         let d1 = parse_dfa () in let d2 = parse_dfa () in
         (match dfa_bisim_run d1 d2 with
